@@ -136,6 +136,17 @@ BOOL_FORMS = ("b1", "pylist-bool", "pc-b1")
 #   a LIST of PointClouds of mixed dtype whose first element is integer -> menpo.math.as_matrix allocates the data
 #   matrix with the dtype of the first element and truncates the others (reported; defect of as_matrix)
 
+# REFUSED-CALL letters: calls the unchanged tree refuses with an exception, made on the SAME live models / graph in
+# between the valid queries.  kind -> (what is called, expected exception class or None where nothing names one)
+REFUSALS = [
+    "increment",  # model.increment(samples) on a model built with incremental=False        -> ValueError (raised explicitly)
+    "query-long",  # mahalanobis_distance of a vector with one feature (pc: one point) too many  -> raises (numpy shape error)
+    "query-long-nosub",  # the same with subtract_mean=False (the product, not the subtraction, refuses)
+    "query-short",  # one feature (point) too few; only where >= 2 features remain (a length-1 vector broadcasts)
+    "ctor-mode",  # constructing on the model's own graph object with mode='average' (graphs with edges)  -> ValueError
+    "ctor-singular",  # constructing on the model's own graph with a constant feature per vertex -> LinAlgError
+]
+
 QUERIES = ["mean", "single", "row", "batch", "batchmean", "listq"]
 # mean      : the sample mean itself (1-d)                -> distance 0
 # single    : one generic vector (1-d)
@@ -506,6 +517,21 @@ class C12(Check):
         out.append(("maha", "zero", 1, 0))
         out.append(("maha", "zero", 0, 0))  # value exactly 0: the quadratic form of the zero vector is 0
         out.append(("pca",))
+        # refused calls, in between the valid queries (they are self loops: the live models are kept, and every later
+        # query runs its normal oracle on models that have seen the refusals)
+        # (the increment refusal on every model; the others do not depend on how the precision was estimated and run on
+        # the models with bias 0 and the plain inverse, like the argument forms)
+        ref_ops = [("refuse", "increment")]
+        short = (st["nv"] - 1) * st["k"] if st["cfg"][4].startswith("pc") else st["nv"] * st["k"] - 1
+        if st["cfg"][1] == 0 and st["cfg"][2] == "none":
+            ref_ops += [("refuse", "query-long"), ("refuse", "query-long-nosub")]
+            if short >= 2:
+                ref_ops.append(("refuse", "query-short"))
+            if st["edges"]:
+                ref_ops.append(("refuse", "ctor-mode"))
+            ref_ops.append(("refuse", "ctor-singular"))
+        for i, rop in enumerate(ref_ops):
+            out.insert(2 + 3 * i, rop)
         # argument forms of the query: on every model with the plain inverse and bias 0 (the query path does not
         # depend on how the precision was estimated; graph, k, mode, stored dtype, storage and class all vary)
         if st["cfg"][1] == 0 and st["cfg"][2] == "none":
@@ -557,6 +583,8 @@ class C12(Check):
             return self._q_pca(st, verify)
         if op[0] == "mform":
             return self._q_mform(st, op, verify)
+        if op[0] == "refuse":
+            return self._q_refuse(st, op, verify)
         raise ValueError(op)
 
     def _fit(self, st, op, verify):
@@ -693,6 +721,105 @@ class C12(Check):
         return fails
 
     # ---- queries ------------------------------------------------------------------------------------
+    # ---- refused calls ------------------------------------------------------------------------------
+    @staticmethod
+    def _graph_obs(g):
+        a = g.adjacency_matrix
+        a = a.toarray() if hasattr(a, "toarray") else np.asarray(a)
+        return (type(g).__name__, int(g.n_vertices), a.shape, a.tobytes(), getattr(g, "root_vertex", None))
+
+    @staticmethod
+    def _arg_obs(arg):
+        if isinstance(arg, np.ndarray):
+            return ("A", arg.shape, str(arg.dtype), arg.tobytes(), bool(arg.flags.writeable))
+        if isinstance(arg, (list, tuple)):
+            return (type(arg).__name__,) + tuple(C12._arg_obs(a) for a in arg)
+        if hasattr(arg, "points"):
+            return ("PC", C12._arg_obs(arg.points))
+        return repr(arg)
+
+    def _refused_call(self, st, kind, m, sparse):
+        """(callable, argument objects to watch, expected exception class or None) for one model of the pair."""
+        from menpo.shape import PointCloud
+
+        nv, k = st["nv"], st["k"]
+        pc = st["cfg"][4].startswith("pc")
+        cls = type(m)
+        if kind == "increment":
+            rows = np.array(st["X"][:3], dtype=float, copy=True)
+            arg = [PointCloud(r.reshape(nv, k).copy()) for r in rows] if pc else rows
+            return (lambda: m.increment(arg)), [arg], ValueError
+        if kind.startswith("query"):
+            sub = not kind.endswith("nosub")
+            dn = 1 if "long" in kind else -1
+            if pc:
+                arg = PointCloud(np.full((nv + dn, k), 1.5))
+            else:
+                arg = np.full(nv * k + dn, 1.5)
+            return (lambda: m.mahalanobis_distance(arg, subtract_mean=sub)), [arg], None
+        # constructor refusals on the model's OWN graph object
+        X = np.array(st["X"], dtype=float, copy=True)
+        if kind == "ctor-singular":
+            X[:, ::k] = 1.25  # feature 0 of every vertex is constant: every block covariance is exactly singular
+            exp = np.linalg.LinAlgError
+            mode = st["cfg"][0]
+        else:
+            exp = ValueError
+            mode = "average"
+        data = [PointCloud(r.reshape(nv, k).copy()) for r in X] if pc else X
+        dtype = np.float64 if st["cfg"][3] == "f8" else np.float32
+        return (lambda: cls(data, m.graph, mode=mode, n_components=None, dtype=dtype, sparse=sparse, bias=0)), [data], exp
+
+    def _q_refuse(self, st, op, verify):
+        kind = op[1]
+        where = self._where(st, "refuse-%s" % kind)
+        fails = []
+        ctx = "refused call %r, root %r letter %r" % (kind, st["root"], st["cfg"])
+        calls = [(name,) + self._refused_call(st, kind, m, sparse) for name, m, sparse in zip(("sparse", "dense"), st["models"], (True, False))]
+
+        def snapshot():
+            return (tuple(self._obs(x) for x in st["models"]), tuple(self._graph_obs(x.graph) for x in st["models"]), tuple(tuple(self._arg_obs(a) for a in c[2]) for c in calls))
+
+        before = snapshot() if verify else None
+        for name, call, args, exp in calls:
+            outcomes = []
+            for attempt in (1, 2):  # (c) the retry must be refused in the same way
+                try:
+                    got = call()
+                    outcomes.append(("returned", type(got).__name__, ""))
+                except Exception as e:  # noqa - the refusal is the expected outcome; anything else is judged below
+                    outcomes.append(("raised", type(e).__name__, str(e)[:200], e))
+            if not verify:
+                continue
+            first = outcomes[0]
+            if first[0] != "raised":
+                fails.append(Failure(where, "not-refused", "%s model: the call returned a %s instead of raising (%s)" % (name, first[1], ctx)))
+                self.note("refuse:%s-not-refused" % kind)
+            else:
+                if exp is not None and not isinstance(first[3], exp):
+                    fails.append(Failure(where, "exception-type", "%s model: raised %s (%s), expected %s (%s)" % (name, first[1], first[2], exp.__name__, ctx)))
+                if outcomes[1][:3] != first[:3]:
+                    fails.append(Failure(where, "retry-refused-alike", "%s model: first attempt %r, retry %r (%s)" % (name, first[:3], outcomes[1][:3], ctx)))
+                self.note("refuse:%s-raised-%s" % (kind, first[1]))
+        if not verify:
+            return []
+        # (b) nothing observable changed: both models, their graphs, the arguments
+        try:
+            after = snapshot()
+        except Exception as e:  # noqa
+            after = None
+            fails.append(Failure(where, "state-unchanged-by-refused-call", "the models cannot be observed any more after the refused calls: %s: %s (%s)" % (type(e).__name__, e, ctx)))
+        if after is not None and after != before:
+            what = []
+            for part, a, b in zip(("model", "graph", "arguments"), before, after):
+                for name, x, y in zip(("sparse", "dense"), a, b):
+                    if x != y:
+                        what.append("%s of the %s model" % (part, name))
+            prec = ["%s.precision is now %s" % (name, repr(m.precision) if np.ndim(m.precision) == 0 else type(m.precision).__name__) for name, m in zip(("sparse", "dense"), st["models"])]
+            fails.append(Failure(where, "state-unchanged-by-refused-call", "changed by the refused call: %s; %s (%s)" % (", ".join(what), "; ".join(prec), ctx)))
+        self.note("refuse:%s" % ("state-kept" if not fails else "differs"))
+        return fails
+
     def _q_mean(self, st, verify):
         if not verify:
             return []
@@ -983,6 +1110,7 @@ class C12(Check):
         need += ["ncomp-range:below-dim", "ncomp-range:equal-dim", "ncomp-range:between-dim-and-2dim", "ncomp-range:2dim-or-more", "maha-query:zero", "maha:zero-vector-without-mean-subtraction"]
         need += ["dtype:%s" % d for d in DTYPES] + ["feed:%s" % f for f in FEEDS + FORM_FEEDS] + ["k:1", "k:2", "k:3"]
         need += ["qform:%s-%s" % fs for fs in VEC_QFORMS + PC_QFORMS] + ["qform:agrees", "qform-opts:subtract0", "qform-opts:subtract1"]
+        need += ["refuse:state-kept", "refuse:increment-raised-ValueError", "refuse:query-long-raised-ValueError", "refuse:query-long-nosub-raised-ValueError", "refuse:query-short-raised-ValueError", "refuse:ctor-mode-raised-ValueError", "refuse:ctor-singular-raised-LinAlgError"]
         need += ["sparsity:unjoined-pair-checked", "sparsity:isolated-vertex-checked", "sparsity:joined-pair-nonzero", "psd:singular", "psd:definite"]
         need += ["mean:agrees", "maha:agrees", "maha:at-mean-zero", "maha:positive", "maha:batch-vs-single-compared", "pca:dense-agrees", "pca:sparse-agrees"]
         need += ["maha-query:%s" % q for q in QUERIES] + ["maha-opts:subtract1-sqrt0", "maha-opts:subtract0-sqrt0", "maha-opts:subtract1-sqrt1"]
@@ -1019,6 +1147,7 @@ class C12(Check):
             "feeds": FEEDS,
             "training_data_form_letters": FORM_FEEDS,
             "query_form_letters": ["%s/%s" % fs for fs in VEC_QFORMS + PC_QFORMS],
+            "refused_call_letters": REFUSALS,
             "query_form_letters_without_mean_subtraction": ["%s/%s" % fs for fs in VEC_QFORMS_NOSUB + PC_QFORMS_NOSUB],
             "query_letters": QUERIES,
             "n_samples": N_SAMPLES,
@@ -1041,6 +1170,9 @@ class C12(Check):
             "query forms run on every model with bias 0 and the plain inverse (the integer payload Xi = rint(16 X) is used where a dtype cannot carry X)",
             "forms that the unchanged tree rejects or mishandles outside the property text are not letters: a generator for GMRFVectorModel (IndexError), a tuple of PointClouds as query (AttributeError), float16 training data "
             "(half-precision mean), a list of PointClouds of mixed dtype starting with an integer one (as_matrix truncates the others - reported)",
+            "refused calls (increment on a non-incremental model, wrong-size queries, invalid mode, singular data) are made twice on the same live models / graph in between the valid queries; they must raise (ValueError for increment and "
+            "mode, LinAlgError for singular data, any exception for wrong sizes), leave models, graph and arguments exactly as they were, and every later query runs its normal oracle on the same models; "
+            "not refusal letters because the unchanged tree does not refuse them: a query of length 1 (broadcast against the mean), an invalid mode on an edgeless graph (ignored), a singular covariance with n_components set (SVD path returns inf)",
             "incremental models are the subject of C11 and are not built here",
         ]
 
